@@ -103,6 +103,10 @@ CLOSE_FAMILY = [
     ("h2", "pause", ["goaway", "badframe"]),
     ("h2", "midpause", ["none", "resume", "goaway", "badframe", "rst", "eof", "reset", "terminate", "rtimeout"]),
     ("h2", "win0", ["goaway", "badframe"]),
+    # HTTP/2 in the clear (prior knowledge): the transport is a plain socket stream - it HAS send_eof(), which on trio
+    # refuses (BusyResourceError) while another task is inside the blocked send_all(): closing must still close
+    ("h2pk", "pause", ["goaway"]),
+    ("h2pk", "midpause", ["goaway", "eof", "reset"]),
     ("ws/h2", "win0", ["goaway", "badframe"]),
     ("ws/h2", "midpause", ["none", "resume", "goaway", "reset", "rtimeout"]),
     ("h1", "pause", ["badreq"]),
@@ -256,7 +260,10 @@ def build(params: Any) -> tuple:
         client = pre + [("data", 0, ws_h1_handshake(b"/big"))] + post
         apps = {"websocket": ws_app(n, piece, mid), "http:/other": SMALL}
     else:
-        conn0.update(tls=True, alpn="h2", auto_ack=False)
+        if carrier == "h2pk":
+            conn0.update(auto_ack=False)
+        else:
+            conn0.update(tls=True, alpn="h2", auto_ack=False)
         if pressure == "win0":
             conn0["h2_settings"] = {IWS: 0}
         else:  # transport pressure only: take HTTP/2 flow control out of the picture
@@ -265,9 +272,10 @@ def build(params: Any) -> tuple:
         # Small pieces over HTTP/2: the application yields to the event loop after each (a ticker / event stream), so
         # that every piece travels as its own small DATA frame instead of being coalesced in the stream buffer.
         paced = piece != CHUNK
-        if carrier == "h2":
-            client = [("cmd", 0, "preface"), ("cmd", 0, "headers", SIB, h2_request_headers(b"GET", b"/sib"), True)] + pre + \
-                     [("cmd", 0, "headers", BIG, h2_request_headers(b"GET", b"/big"), True)] + post
+        if carrier in ("h2", "h2pk"):
+            sch = b"http" if carrier == "h2pk" else b"https"
+            client = [("cmd", 0, "preface"), ("cmd", 0, "headers", SIB, h2_request_headers(b"GET", b"/sib", scheme=sch), True)] + pre + \
+                     [("cmd", 0, "headers", BIG, h2_request_headers(b"GET", b"/big", scheme=sch), True)] + post
             apps = {"http:/big": body_app(n, piece, mid, paced), "http:/sib": SMALL, "http:/other": SMALL}
         else:
             client = [("cmd", 0, "preface"), ("cmd", 0, "ws_open", BIG), ("cmd", 0, "headers", SIB, h2_request_headers(b"GET", b"/sib"), True)] + \
@@ -361,7 +369,7 @@ def oracle(w: Any, params: Any) -> List[dict]:
     if rel in ("goaway", "badframe"):
         tag += f":{engine}"  # how a close is carried out is the worker's business: findings here are per engine
     size = "" if piece == CHUNK else f":p{piece}"
-    h2carrier = carrier in ("h2", "ws/h2")
+    h2carrier = carrier in ("h2", "ws/h2", "h2pk")
     stalled = "pause" if pressure == "midpause" else pressure  # which layer holds the data back
     inst = _big(w)
     rec = w.conns[0]
@@ -417,6 +425,19 @@ def oracle(w: Any, params: Any) -> List[dict]:
             all_released = w.driver.pos[src] == len(w.driver.sources[src][1])
             if all_released and _delivered(w) != n * piece and carrier != "ws/h2":
                 out.append(V("not-delivered", f"{tag}{size}", f"delivered {_delivered(w)} of {n * piece}"))
+    # ... and every OTHER application of that connection: once the connection is over (the client said GOAWAY, went
+    # away or reset it) none of their sends may stay parked either - e.g. a response head queued behind the write that
+    # was blocked on the stalled peer (the protocol-error close is the known finding and keeps its own key above)
+    if released and rel in ("goaway", "eof", "reset") and not not_release:
+        for other in w.instances:
+            if other is inst or other.type not in ("http", "websocket") or other.scope.get("path") == "/other":
+                continue
+            pend = [s for s in other.sends if s[3] == "pending"]
+            if pend and h2carrier and (stalled, rel) == ("pause", "eof") and pend[0][2]["type"] not in ("http.response.body", "websocket.send"):
+                pend = []  # (as above: a head inside the transport write is not released by an EOF)
+            if pend:
+                out.append(V("send-never-released", f"{tag}{size}:sibling",
+                             f"{other.scope.get('path')}: send #{other.sends.index(pend[0])} of {len(other.sends)} still pending"))
     out.extend(internal_errors(w))
     return out
 
